@@ -73,6 +73,27 @@ structure Geom where
   keep    : Nat        -- `keep := len(packmarker) - 1`
   marker  : List Nat   -- `packmarker`
 
+/-! ### Writing the target file
+
+`Pack` opens the target and writes `layout` from offset 0. Whether an existing, longer
+target keeps its old tail depends on how the file is opened. -/
+
+/-- `truncate` = `os.Create` / `O_TRUNC`; `keepOld` = `O_WRONLY|O_CREATE` without `O_TRUNC` -/
+inductive OpenMode where
+  | truncate
+  | keepOld
+  deriving Repr, DecidableEq
+
+/-- content of a file with content `old` after it was opened in mode `m`, `new` was written from
+    offset 0 and it was closed -/
+def writeFrom0 (m : OpenMode) (old new : List Nat) : List Nat :=
+  match m with
+  | .truncate => new
+  | .keepOld => new ++ old.drop new.length
+
+/-- one run of the pack tool on a target that has content `old` (`[]` = does not exist) -/
+def pack (m : OpenMode) (M old bin zip : List Nat) : List Nat := writeFrom0 m old (layout M bin zip)
+
 namespace Impl
 
 /-- number of bytes one `f.Read(p)` returns: `room = len(p)`, `avail` = bytes left in
